@@ -169,7 +169,7 @@ fn lay_out(lines: &[Ln], lay: Layout) -> Files {
     }
 }
 
-const DECS: [&str; 14] = [
+const DECS: [&str; 16] = [
     "none",
     "own-line-before:é",
     "own-line-before:→",
@@ -184,6 +184,8 @@ const DECS: [&str; 14] = [
     "other-file",
     "all-around",
     "no-trailing-newline",
+    "tab-indented-fault-line",
+    "tab-indented-all-lines",
 ];
 
 fn find_fault(files: &Files) -> (usize, usize) {
@@ -251,6 +253,17 @@ fn decorate(mut files: Files, d: usize, fault: &Fault) -> Option<(Files, bool)> 
             files[fi].1.push(ln("; 😀"));
         }
         13 => nl = false,
+        14 => {
+            // a TAB is one character: columns must not count it as two
+            let t = files[fi].1[li].text.clone();
+            files[fi].1[li].text = format!("\t\t{}", t);
+        }
+        15 => {
+            for l in files[fi].1.iter_mut() {
+                let t = l.text.clone();
+                l.text = format!("\t{}", t);
+            }
+        }
         _ => unreachable!(),
     }
     Some((files, nl))
